@@ -385,6 +385,21 @@ def gen_history(ctx):
         ctx.count(key=case, nontrivial=nontrivial_history(case), classes=classes)
         if nontrivial_history(case):
             ctx.sample([describe(j) for j in case["jobs"]], cap=2)
+    if ctx.shard == 0:
+        # a fixed history: the same tree binarization three times in a row (wide nodes, co-indexed labels, plain and bare
+        # binarization labels), then transitions over a binarized tree - counters or caches that live as long as the
+        # process would show from the second job on
+        def tok(i):
+            return {"w": "w%d" % i, "p": "NN", "n": i, "e": "HD" if i == 2 else "NK", "lem": "--", "m": "--"}
+        wide = {"l": "VROOT", "e": "--", "lem": "--", "m": "--", "c": [{"l": "S", "e": "--", "lem": "--", "m": "--", "c": [
+            {"l": "NP-1", "e": "SB", "lem": "--", "m": "--", "c": [tok(1), tok(2), tok(3), tok(4)]}, tok(5), tok(6), tok(7)]}]}
+        trees = [{"sid": 1, "root": wide}, {"sid": 2, "root": wide}]
+        base = {"kind": "transform", "src_fmt": "export", "dest_fmt": "export", "trees": trees, "trans": ["negra_mark_heads", "binarize"]}
+        jobs = [dict(base), dict(base, params=["bare_bin_labels"]), dict(base, dest_fmt="discobrackets"), dict(base)]
+        try:
+            ctx.run_case(body, {"jobs": jobs, "perm": [3, 1]})
+        except Violation as vio:
+            ctx.record(vio)
     ctx.hyp(history_case(4 if quick else 6), body, max_examples=10 if quick else 60, shrink=False,
             smaller=lambda c: [dict(c, jobs=c["jobs"][:i] + c["jobs"][i + 1:]) for i in range(len(c["jobs"])) if len(c["jobs"]) > 2])
 
